@@ -344,3 +344,75 @@ pub fn sparse_write(path: &Path, at: u64, data: &[u8]) {
     f.seek(SeekFrom::Start(at)).unwrap();
     f.write_all(data).unwrap();
 }
+
+// ---- spend histories (C07 / C08 / C15) ------------------------------------------------------------
+pub fn b58check(version: u8, payload: &[u8]) -> String { let mut v = vec![version]; v.extend_from_slice(payload); bitcoin::base58::encode_check(&v) }
+pub fn hash160_of(b: &[u8]) -> Vec<u8> { bitcoin::hashes::hash160::Hash::hash(b).to_byte_array().to_vec() }
+/// address the property assigns to an output script of the kinds used by gen_history (Bitcoin main net)
+pub fn addr_of(script: &[u8]) -> Option<String> {
+    let n = script.len();
+    if n == 25 && script[0] == 0x76 && script[1] == 0xa9 && script[2] == 0x14 && script[23] == 0x88 && script[24] == 0xac { return Some(b58check(0, &script[3..23])); }
+    if (n == 35 && script[0] == 33 && script[34] == 0xac) || (n == 67 && script[0] == 65 && script[66] == 0xac) { return Some(b58check(0, &hash160_of(&script[1..n - 1]))); }
+    if n == 23 && script[0] == 0xa9 && script[1] == 0x14 && script[22] == 0x87 { return Some(b58check(5, &script[2..22])); }
+    None
+}
+/// a random spend history: fan-in / fan-out, spends inside the creating block, spends of unknown outpoints,
+/// address-less outputs, zero values, a duplicated txid, more than 256 outputs, P2PK and P2PKH of one key
+pub fn gen_history(rng: &mut Rng, nblocks: u64) -> Vec<BlockSpec> {
+    let keys: Vec<Vec<u8>> = (0..6).map(|i| { let mut k = vec![0x02]; k.extend(vec![i as u8 + 1; 32]); k }).collect();
+    let mut spendable: Vec<([u8; 32], u32)> = Vec::new();
+    let mut dup_done = false;
+    let mut k: u32 = 0;
+    make_chain(nblocks, &mut |h| {
+        let ntx = rng.below(4) as usize;
+        let mut txs: Vec<TxSpec> = Vec::new();
+        for t in 0..ntx {
+            k += 1;
+            let nin = 1 + rng.below(3) as usize;
+            let mut inputs = Vec::new();
+            for _ in 0..nin {
+                let pick = rng.below(10);
+                if pick < 7 && !spendable.is_empty() { let i = rng.below(spendable.len() as u64) as usize; let (tx, ix) = spendable.swap_remove(i); inputs.push(TxIn::new(tx, ix, vec![0x51])); }
+                else if pick < 8 && !txs.is_empty() { let p: &TxSpec = &txs[txs.len() - 1]; inputs.push(TxIn::new(p.txid(), rng.below(p.outputs.len() as u64) as u32, vec![])); }   // spend inside the creating block
+                else { let mut u = [0xEEu8; 32]; u[0] = k as u8; inputs.push(TxIn::new(u, rng.below(3) as u32, vec![0x00])); }                        // unknown outpoint
+            }
+            let nout = if h == 3 && t == 0 { 300 } else { 1 + rng.below(4) as usize };
+            let mut outputs = Vec::new();
+            for _ in 0..nout {
+                let key = &keys[rng.below(keys.len() as u64) as usize];
+                let script = match rng.below(8) {
+                    0 => { let mut s = vec![33]; s.extend_from_slice(key); s.push(0xac); s }                  // P2PK
+                    1 | 2 | 3 => p2pkh_script(&{ let mut a = [0u8; 20]; a.copy_from_slice(&hash160_of(key)); a }),   // P2PKH of the same key
+                    4 => { let mut s = vec![0xa9, 0x14]; s.extend(vec![k as u8; 20]); s.push(0x87); s }      // P2SH
+                    5 => vec![0x6a, 0x02, 0x68, 0x69],                                                    // OP_RETURN
+                    6 => { let mut s = vec![0x51, 33]; s.extend_from_slice(key); s.extend([0x51, 0xae]); s }  // 1-of-1 multisig
+                    _ => vec![0x51],                                                                      // nonstandard
+                };
+                let value = if rng.below(6) == 0 { 0 } else { rng.below(5_000_000_000) };
+                outputs.push(TxOut::new(value, script));
+            }
+            let mut tx = TxSpec::new(inputs, outputs);
+            tx.locktime = k;
+            let id = tx.txid();
+            for i in 0..tx.outputs.len() { if rng.below(3) != 0 { spendable.push((id, i as u32)); } }
+            txs.push(tx);
+        }
+        txs
+    }).into_iter().enumerate().map(|(h, mut b)| {
+        // a duplicated txid: block 5 repeats the coinbase of block 2 (pre-BIP30 style)
+        if h == 5 && !dup_done { dup_done = true; b.txs[0] = TxSpec::new(vec![TxIn::coinbase(2)], vec![TxOut::new(50_0000_0000, p2pkh_script(&[2u8; 20]))]); }
+        b
+    }).collect::<Vec<_>>()
+}
+/// fixes prev-hash links after edits (hashes change when transactions are replaced)
+pub fn relink(chain: &mut Vec<BlockSpec>) { let mut prev = [0u8; 32]; for b in chain.iter_mut() { b.prev = prev; b.merkle = None; prev = b.hash(); } }
+/// reference UTXO set of heights s..=last: (txid display hex, index) -> (height, value, address)
+pub fn ref_utxo(chain: &[BlockSpec], s: u64, last: u64) -> std::collections::BTreeMap<(String, u32), (u64, u64, String)> {
+    let mut m = std::collections::BTreeMap::new();
+    for h in s..=last { for tx in &chain[h as usize].txs {
+        for i in &tx.inputs { m.remove(&(hex_rev(&i.prev_txid), i.prev_index)); }
+        let id = hex_rev(&tx.txid());
+        for (ix, o) in tx.outputs.iter().enumerate() { if let Some(a) = addr_of(&o.script) { m.insert((id.clone(), ix as u32), (h, o.value, a)); } }
+    } }
+    m
+}
